@@ -286,6 +286,13 @@ def r_heap_guard(ctx):
         if not ok:
             # is the loop at least under *some* comparison with heap_size?  then the count is merely in another form
             some = any(any(x == ('v', 'heap_size', 'P') for x in walk_term(a)) for a, p_ in ctx.conds(f, nd))
+            fixed = [x for a, p_ in ctx.conds(f, nd) for x in walk_term(a) if is_call(x, 'numpy.prod', 'numpy.product', 'numpy.cumprod')]
+            if fixed:
+                run.refute('R-PROG', f, 'candidate-product:heap-guard', nd.lineno,
+                           'the candidate count compared with heap_size is %s, a fixed-width integer: it wraps around for 2^63 or '
+                           'more combinations, slips under the guard and the product loop never ends' % show(fixed[0])[:80],
+                           inputs='63 or more detected errors with two candidates each')
+                continue
             if some:
                 run.undecided('R-PROG', f, 'candidate-product:heap-guard', nd.lineno,
                               'the product loop is under a heap_size comparison whose counted quantity is not recognised')
@@ -795,6 +802,16 @@ def r_ret(ctx):
             set_like = s0[0] == 'v' and any(d.name == s0[1] and d.kind == 'assign' and
                                             TermBuilder(f, d.node).def_term(d.id) == ('call', ('g', 'builtins.set'), (), ())
                                             for d in f.defs)
+            list_built = s0[0] == 'v' and isinstance(s0[2], tuple) and \
+                any(d.name == s0[1] and d.kind == 'assign' and TermBuilder(f, d.node).def_term(d.id) == ('list',) for d in f.defs) and \
+                any(d.name == s0[1] and d.kind == 'mutate' and isinstance(d.extra, ast.Attribute) and d.extra.attr in ('append', 'extend')
+                    for d in f.defs)
+            if list_built:
+                run.refute('R-RET', f, role + ':sorted', nd.lineno,
+                           'the candidates are appended to the plain list `%s` and returned as they come: the result is neither '
+                           'sorted nor duplicate-free by construction' % s0[1],
+                           inputs='two error sites producing the same strand; candidates of different lengths')
+                continue
             if not set_like:
                 run.undecided('R-RET', f, role + ':sorted', nd.lineno, 'returned collection %s is not in a recognised form' % show(L)[:60])
                 continue
